@@ -1,8 +1,202 @@
-/-! stub driver: answers "bad-op" to every line until the family's model is wired in -/
-partial def loop (h : IO.FS.Stream) : IO Unit := do
+import Std.Data.HashSet
+import NbioVerif.DrvCommon
+import NbioVerif.Model.TPool
+/-! tpooldrv: runs the task-pool model (M9) on the annotated ops of `htpool`.
+
+The harness acts (`go`, `rel`, `fin`, `stop`, `par`), waits until the implementation is *stable*
+(every goroutine blocked) and reports what it then observes:
+`o=<concurrent>/<len(queue)>/<running tasks>/<finished tasks>/<tasks whose Go call has not returned>`.
+The driver keeps the set of model states that are consistent with everything observed so far (the
+scheduler's choices — e.g. the dispatcher's `select` after `Stop` — are not observable directly),
+applies the harness action to each of them, closes under the model's *internal* steps (everything
+except task ends, which the harness gates) up to the stable states, and keeps those whose observation
+equals the implementation's.  It answers with the observation if at least one state remains, else
+with the observations the model allows. -/
+open TPool
+
+def wKey : WPh → Nat | .idle => 0 | .exiting => 1 | .running t => t + 2
+def gKey : GoPh → Nat | .failed t => 2 * t | .enq t => 2 * t + 1
+
+def insertBy {α} (k : α → Nat) (x : α) : List α → List α
+  | [] => [x]
+  | y :: ys => if k x ≤ k y then x :: y :: ys else y :: insertBy k x ys
+def sortBy {α} (k : α → Nat) (l : List α) : List α := l.foldl (fun acc x => insertBy k x acc) []
+
+/-- states that differ only in the order of the worker / Go-call lists are the same state -/
+def norm (s : St) : St :=
+  { s with workers := sortBy wKey s.workers, goers := sortBy gKey s.goers, dropped := sortBy id s.dropped }
+
+structure Park where
+  inc  : List Nat := []     -- Go calls held by the harness right after their failed increment
+  undo : List Nat := []     -- Go calls held right after their decrement
+
+def goTaskOf : GoPh → Nat | .failed t | .enq t => t
+
+/-- the internal actions enabled in `s` (task ends, `go`, `stop` are the harness's) -/
+def internalActs (g : Cfg) (pk : Park) (s : St) : List Act :=
+  let goActs := (s.goers.zipIdx.map fun (x, i) =>
+    match x with
+    | .failed t => if pk.inc.contains t then [] else [Act.goUndo i]
+    | .enq t => if pk.undo.contains t then [] else [Act.goEnq i, Act.goDrop i]).flatten
+  let senders := (s.goers.zipIdx.filterMap fun (x, k) =>
+    match x with
+    | .enq t => if pk.undo.contains t then none else some k
+    | _ => none)
+  let wActs := (s.workers.zipIdx.map fun (w, i) =>
+    match w with
+    | .idle => Act.wTake i :: (if g.cap == 0 then senders.map (Act.wRdv i) else [])
+    | .exiting => [Act.wExit i]
+    | .running _ => []).flatten
+  goActs ++ wActs ++ [Act.dRecv, Act.dExit, Act.dFork, Act.dUndo]
+
+def succs (g : Cfg) (pk : Park) (s : St) : List St :=
+  (internalActs g pk s).filterMap fun a => (step g s a).map norm
+
+/-- a cheap fingerprint of a state (collisions only cost precision of the visited set, so the full
+    state is compared as well through the string) -/
+def stKey (s : St) : String :=
+  s!"{s.conc}|{s.queue}|{s.workers.map wKey}|{repr s.disp}|{s.goers.map gKey}|{s.stopAdd}{s.closed}|{s.done}|{s.dropped}|{s.panics}"
+
+/-- all stable states reachable from `front` by internal steps -/
+partial def closure (g : Cfg) (pk : Park) (front : List St) (seen : Std.HashSet String) (stable : List St)
+    (fuel : Nat) : Option (List St) :=
+  match front with
+  | [] => some stable
+  | s :: rest =>
+    if fuel == 0 then none
+    else
+      let k := stKey s
+      if seen.contains k then closure g pk rest seen stable fuel
+      else
+        let nx := succs g pk s
+        if nx.isEmpty then closure g pk rest (seen.insert k) (s :: stable) (fuel - 1)
+        else closure g pk (nx ++ rest) (seen.insert k) stable (fuel - 1)
+
+def sortNat (l : List Nat) : List Nat := sortBy id l
+def showList (l : List Nat) : String := ",".intercalate ((sortNat l).map toString)
+
+def obsOf (s : St) : String :=
+  s!"{s.conc}/{s.queue.length}/{showList (runningTasks s)}/{showList s.done}/{showList (s.goers.map goTaskOf)}"
+
+structure DS where
+  g : Cfg := { maxC := 0, cap := 0 }
+  belief : List St := [{}]
+  pk : Park := {}
+  stopped : Bool := false
+  lost : Bool := false      -- an earlier observation of this case had no matching model state
+
+def dedup (l : List St) : List St := l.foldl (fun acc s => if acc.contains s then acc else s :: acc) []
+
+/-- finish the op: close under internal steps, compare with the observation, print -/
+def conclude (d : DS) (after : List St) (obs : String) : IO DS := do
+  match closure d.g d.pk (dedup after) {} [] 120000 with
+  | none => IO.println "MODEL closure-overflow"; pure { d with lost := true }
+  | some st =>
+    let ok := st.filter (fun s => obsOf s == obs)
+    if ok.isEmpty then
+      IO.println s!"MODEL no-match want={"|".intercalate (dedup st |>.map obsOf |>.eraseDups)}"
+      pure { d with belief := st, lost := true }
+    else
+      IO.println s!"o={obs}"
+      pure { d with belief := ok }
+
+def finishAct (s : St) (t : Nat) (p : Bool) : Option Act :=
+  match s.workers.zipIdx.find? (fun (w, _) => w == .running t) with
+  | some (_, i) => some (.wFinish i p)
+  | none => if s.disp == .running t then some (.dFinish p) else none
+
+partial def loop (h : IO.FS.Stream) (d : DS) : IO Unit := do
   let line ← h.getLine
   if line.isEmpty then return ()
-  IO.println "bad-op"
-  loop h
+  let ws := (line.trimAscii.toString.splitOn " ").filter (· ≠ "")
+  let fld := fun k => (Drv.field ws k).getD ""
+  let nums := (ws.drop 1).filter (fun w => !w.contains '=') |>.map String.toNat!
+  let obs := fld "o"
+  if d.lost && ws.head? != some "C" then
+    IO.println "MODEL skipped (an earlier observation of this case matched no model state)"
+    loop h d
+  else
+  match ws.head? with
+  | some "C" =>
+    let n := (fld "bound").toNat!
+    IO.println "ok"
+    loop h { g := { maxC := (n : Int) - 1, cap := (fld "q").toNat! } }
+  | some "go" =>
+    match nums with
+    | t :: _ =>
+      if d.belief.any (fun s => s.handed.contains t) then IO.println "rejected"; loop h d
+      else
+        let pk := match fld "park" with
+          | "inc" => { d.pk with inc := t :: d.pk.inc }
+          | "undo" => { d.pk with undo := t :: d.pk.undo }
+          | _ => d.pk
+        let d := { d with pk }
+        let d ← conclude d (d.belief.filterMap fun s => (step d.g s (.go t)).map norm) obs
+        loop h d
+    | _ => IO.println "bad-op"; loop h d
+  | some "par" =>
+    match nums with
+    | k :: base :: _ =>
+      let ts := (List.range k).map (· + base)
+      if d.stopped || !d.belief.all (fun s => s.workers.isEmpty && s.queue.isEmpty && s.goers.isEmpty && s.disp == .idle)
+          || d.belief.any (fun s => ts.any s.handed.contains) then
+        IO.println "rejected"; loop h d
+      else
+        -- k submissions one after the other, each followed by the implementation settling
+        let rec go (ts : List Nat) (bel : List St) : Option (List St) :=
+          match ts with
+          | [] => some bel
+          | t :: r =>
+            match closure d.g d.pk (dedup (bel.filterMap fun s => (step d.g s (.go t)).map norm)) {} [] 120000 with
+            | some st => go r st
+            | none => none
+        match go ts d.belief with
+        | none => IO.println "MODEL closure-overflow"; loop h d
+        | some st =>
+          let d ← conclude d st obs
+          loop h d
+    | _ => IO.println "bad-op"; loop h d
+  | some "rel" =>
+    match nums with
+    | t :: _ =>
+      if !(d.pk.inc.contains t || d.pk.undo.contains t) then IO.println "rejected"; loop h d
+      else
+        let d := { d with pk := { inc := d.pk.inc.filter (· != t), undo := d.pk.undo.filter (· != t) } }
+        let d ← conclude d d.belief obs
+        loop h d
+    | _ => IO.println "bad-op"; loop h d
+  | some "fin" =>
+    match nums with
+    | t :: _ =>
+      let p := fld "p" == "1"
+      let nx := d.belief.filterMap fun s => (finishAct s t p).bind fun a => (step d.g s a).map norm
+      if nx.isEmpty then IO.println "rejected"; loop h d
+      else
+        let d ← conclude d nx obs
+        loop h d
+    | _ => IO.println "bad-op"; loop h d
+  | some "finr" =>
+    -- only reaches the driver when the harness found fewer than k+1 running tasks (else it is echoed as `fin t`)
+    match nums with
+    | k :: _ =>
+      if d.belief.all (fun s => (runningTasks s).length ≤ k) then IO.println "rejected"
+      else IO.println s!"MODEL task {k} of the running tasks exists"
+      loop h d
+    | _ => IO.println "bad-op"; loop h d
+  | some "relr" =>
+    match nums with
+    | k :: _ =>
+      if (d.pk.inc ++ d.pk.undo).length ≤ k || d.belief.all (fun s => ((s.goers.map goTaskOf).filter (fun t => d.pk.inc.contains t || d.pk.undo.contains t)).length ≤ k)
+      then IO.println "rejected"
+      else IO.println s!"MODEL parked Go call {k} exists"
+      loop h d
+    | _ => IO.println "bad-op"; loop h d
+  | some "stop" =>
+    if d.stopped then IO.println "rejected"; loop h d
+    else
+      let nx := d.belief.filterMap fun s => (step d.g s .stopAdd).bind fun s => (step d.g s .stopClose).map norm
+      let d ← conclude { d with stopped := true } nx obs
+      loop h d
+  | _ => IO.println "bad-op"; loop h d
 
-def main : IO Unit := do loop (← IO.getStdin)
+def main : IO Unit := do loop (← IO.getStdin) {}
